@@ -342,6 +342,90 @@ pub open spec fn quot_cases(ai: int, a_s: int, bi: int, bs: int, maxp: int, ri: 
     ||| div_post(ai, bi, a_s - bs, maxp, ri, rs)
 }
 
+
+// ------------------------------------------------------------------ comparison helpers
+pub proof fn lemma_pow2i_add(x: int, y: int)
+    requires x >= 0, y >= 0
+    ensures pow2i(x + y) == pow2i(x) * pow2i(y)
+{
+    reveal(pow);
+    lemma_pow_adds(2, x as nat, y as nat);
+}
+pub proof fn lemma_pow2i_mono(x: int, y: int)
+    requires 0 <= x <= y
+    ensures pow2i(x) <= pow2i(y), pow2i(x) > 0
+{
+    lemma_pow2i_add(x, y - x);
+    lemma_pow2i_succ(x); 
+    if y - x > 0 { lemma_pow_positive(2, (y - x) as nat); }
+    assert(pow2i(x) <= pow2i(x) * pow2i(y - x)) by (nonlinear_arith) requires pow2i(x) > 0, pow2i(y - x) >= 1;
+}
+
+/// bit-length pre-filter: a_bits < b_bits + e with 2^e <= 10^sc  ==>  a < b * 10^sc
+pub proof fn lemma_bits_filter(a: int, b: int, ab: int, bb: int, e: int, sc: int)
+    requires a > 0, b > 0, ab >= 1, bb >= 1, e >= 0, sc >= 0,
+             a < pow2i(ab), pow2i(bb - 1) <= b, ab < bb + e, pow2i(e) <= pow10(sc)
+    ensures a < b * pow10(sc)
+{
+    lemma_pow2i_mono(ab, bb + e - 1);
+    lemma_pow2i_add(bb - 1, e);
+    lemma_pow2i_mono(0, bb - 1);
+    lemma_pow2i_mono(0, e);
+    assert(pow2i(bb - 1) * pow2i(e) <= b * pow10(sc)) by (nonlinear_arith)
+        requires 0 < pow2i(bb - 1) <= b, 0 < pow2i(e) <= pow10(sc);
+}
+
+/// digit counts decide when they differ
+pub proof fn lemma_cmp_by_digit_count(a: int, b: int, sd: int)
+    requires a > 0, b > 0, sd >= 0
+    ensures ndigits(a) < ndigits(b) + sd ==> a < b * pow10(sd),
+            ndigits(a) > ndigits(b) + sd ==> a > b * pow10(sd)
+{
+    lemma_ndigits_bounds(a);
+    lemma_ndigits_bounds(b);
+    let da = ndigits(a); let db = ndigits(b);
+    lemma_pow10_pos(sd);
+    if da < db + sd {
+        // a < 10^da <= 10^(db-1+sd) = 10^(db-1) * 10^sd <= b * 10^sd
+        lemma_pow10_mono(da, db - 1 + sd);
+        lemma_pow10_add(db - 1, sd);
+        assert(pow10(db - 1) * pow10(sd) <= b * pow10(sd)) by (nonlinear_arith) requires pow10(db - 1) <= b, pow10(sd) > 0;
+    }
+    if da > db + sd {
+        // a >= 10^(da-1) >= 10^(db+sd) = 10^db * 10^sd > b * 10^sd
+        lemma_pow10_mono(db + sd, da - 1);
+        lemma_pow10_add(db, sd);
+        assert(b * pow10(sd) < pow10(db) * pow10(sd)) by (nonlinear_arith) requires b < pow10(db), pow10(sd) > 0;
+    }
+}
+
+/// the leading (most significant) parts decide: a = a_low + pa*ta, bb = b_low + pb*tb, pa = pb * 10^sd
+pub proof fn lemma_cmp_by_top(a: int, a_low: int, pa: int, ta: int, bb: int, b_low: int, pb: int, tb: int, psd: int)
+    requires a == a_low + pa * ta, 0 <= a_low < pa, bb == b_low + pb * tb, 0 <= b_low < pb, pa == pb * psd, psd > 0, pb > 0
+    ensures ta < tb ==> a < bb * psd, ta > tb ==> a > bb * psd, ta == tb ==> (a - bb * psd == a_low - b_low * psd)
+{
+    assert(bb * psd == b_low * psd + pa * tb) by (nonlinear_arith) requires bb == b_low + pb * tb, pa == pb * psd;
+    if ta < tb {
+        assert(pa * tb >= pa * ta + pa) by (nonlinear_arith) requires ta + 1 <= tb, pa > 0;
+        assert(b_low * psd >= 0) by (nonlinear_arith) requires b_low >= 0, psd > 0;
+    }
+    if ta > tb {
+        assert(pa * ta >= pa * tb + pa) by (nonlinear_arith) requires tb + 1 <= ta, pa > 0;
+        assert(b_low * psd < pa) by (nonlinear_arith) requires 0 <= b_low < pb, pa == pb * psd, psd > 0;
+    }
+}
+
+/// sign of val_at is the sign of the unscaled integer
+pub proof fn lemma_val_at_sign(i: int, s: int, m: int)
+    ensures isgn(val_at(i, s, m)) == isgn(i)
+{
+    lemma_pow10_pos(m - s);
+    let p = pow10(m - s);
+    if i > 0 { assert(i * p > 0) by (nonlinear_arith) requires i > 0, p > 0; }
+    if i < 0 { assert(i * p < 0) by (nonlinear_arith) requires i < 0, p > 0; }
+    if i == 0 { assert(0 * p == 0); }
+}
+
 /// every shape a multiplication result takes in the crate: exact product, an operand (or anything equal
 /// to it, e.g. its normalized form) when the other operand equals one, zero when an operand is zero
 pub broadcast proof fn b_mul_cases(ri: int, rs: int, ai: int, a_s: int, bi: int, bs: int)
